@@ -85,6 +85,34 @@ CLAIMED = {
          'library never emits) are decoded by the library.',
          'Partial: that the strict grammar admits no byte strings other than images of values (needed for the full converse) '
          'is checked through the reference encoder, not proved. Trusted: the transcription in Dicom/Spec/PduGrammar.lean.'),
+ 'C05': ('DESIGN.md §6 C05',
+         'Lean 4 invariants of the loop model for every schedule + pass-by-pass correspondence of the real loop with the model',
+         'The loop model (reader, buffer, event queue, Table 9-10 as in C04, ARTIM clock, fragment generator, transport '
+         'failures) satisfies for EVERY tick list, both roles: ARTIM runs exactly in Sta2/Sta13, idle iff transport closed, '
+         'P-DATA sent/indicated only in Sta6/8 resp. Sta6/7, silence after the end; act_is_table_9_10 ties the model\'s '
+         'actions to the PS3.8 action definitions. The real provider loop is executed (S2) on all histories to depth 2 '
+         'after 18 state-reaching prefixes, depth 3 from both starts and random walks of length 200, and compared pass by '
+         'pass (state, socket, timer, ordered effects) with the model; the invariants are also judged on the real trace.',
+         'Partial: "the real loop equals the model on every history" is established by exhaustive bounded and random '
+         'exploration, not proved; payloads are abstracted to kinds (C03 justifies the buffer abstraction).'),
+ 'C12': ('DESIGN.md §6 C12',
+         'Lean 4 theorems (total decoders, no undefined transition on peer-only schedules) + fuzzing of the real loop',
+         'peer_cannot_crash_acceptor/requester: for every peer-only schedule (any PDUs valid or not, any order and '
+         'segmentation, closes, silence, ARTIM expiry, write failures) the loop model never reaches an undefined cell; '
+         'bad_pdu_aborts; decoders are total functions. The real loop is fuzzed in the six states of the property with '
+         'structure-aware mutations and DIMSE-level corruption followed by the peer closing; every run is judged: no '
+         'blocking, no death, well-formed output (strict Lean reader), A-ABORT for undecodable PDUs, idle and closed.',
+         'Partial: that the Python decoders raise only where the model decoder rejects, and never block, is sampled '
+         '(C01 malformed-input correspondence + this fuzzing), not proved.'),
+ 'C13': ('DESIGN.md §6 C13',
+         'Lean 4 single-pass liveness lemmas + invariants for every reachable state + fault enumeration on the real loop',
+         'closes_after_eof / closes_by_artim: from every quiescent state of the loop model the pass that sees the peer\'s '
+         'close, resp. the first quiet pass after ARTIM ran out in Sta2/Sta13, ends idle with the transport closed and the '
+         'user told; with the invariant holding in every reachable state this bounds every ending. On the real loop every '
+         'conversation of a 17-scenario corpus is run with the peer disconnecting after every byte prefix, going silent '
+         'at every ARTIM point, a write failing in every turn, and disconnecting between outgoing fragments.',
+         'Partial: sendall()/connect() are assumed to return or raise in bounded time (OS); a kill() forced on a '
+         'non-idle provider leaves the socket to the garbage collector (outside the property\'s list of endings).'),
 }
 
 PENDING_REASON = 'check not built yet in this round; planned in DESIGN.md §6 (Lean model + theorem + tie)'
